@@ -1,8 +1,1095 @@
-//! Scenarios on the epoch collector itself (private collectors, queue, registry list).
+//! Scenarios on the epoch collector itself: private collectors, deferred closures, nested guards,
+//! the garbage queue and the registry list (C13-C18).
 
-use crate::monitor::Monitor;
+use std::collections::VecDeque;
+use std::sync::{Arc, OnceLock};
+
+use circ::verif as cv;
+use circ::verif::ebr::{Collector, LocalHandle, VElemRef, VList, VQueue};
+use circ::Guard;
+
+use crate::exec::{Body, Params, Program};
+use crate::lin;
+use crate::monitor::{mon, try_mon, Monitor, OpRec};
 use crate::scen::ScenarioDef;
+use crate::sched;
+use crate::world::Slot;
 
-pub static SCENARIOS: &[ScenarioDef] = &[];
+macro_rules! scen {
+    ($name:expr, $f:ident, $about:expr) => {
+        ScenarioDef {
+            name: $name,
+            about: $about,
+            build: $f,
+        }
+    };
+}
 
-pub fn on_list_finalize(_m: &mut Monitor, _id: usize) {}
+pub static SCENARIOS: &[ScenarioDef] = &[
+    scen!("ebr/sections", sections, "C13/C14: readers, deferrers, advancers, nested guards, registration and reactivation on a private collector"),
+    scen!("ebr/exit", exit_with_garbage, "C15: a thread defers k functions and leaves at every position, in four ways, while another runs rounds"),
+    scen!("ebr/payload", payload, "C15: closure size x alignment x bag capacity x fill level x way of leaving"),
+    scen!("ebr/guards", guards, "C16: every short sequence of pin / drop / reactivate / reactivate_after on up to three guards"),
+    scen!("ebr/queue", queue, "C17: concurrent push / try_pop / try_pop_if on the collector's queue"),
+    scen!("ebr/list", list, "C18: concurrent insert / delete / traverse on the collector's registry list"),
+];
+
+pub struct SendHandle(pub LocalHandle);
+unsafe impl Send for SendHandle {}
+
+pub struct EWorld {
+    pub collector: Collector,
+    pub handles: [Slot<SendHandle>; 8],
+    pub queue: VQueue<u64>,
+    pub list: VList,
+    pub elems: [Slot<VElemRef>; 8],
+}
+
+impl EWorld {
+    fn new(e0: usize) -> Arc<EWorld> {
+        let collector = Collector::new();
+        cv::ebr::set_initial_epoch(&collector, e0);
+        Arc::new(EWorld {
+            collector,
+            handles: Default::default(),
+            queue: VQueue::new(),
+            list: VList::new(),
+            elems: Default::default(),
+        })
+    }
+    /// Called first thing in the setup phase (the monitor exists by then).
+    fn attach(&self, e0: usize) {
+        let m = mon();
+        m.global_epoch_addr = cv::ebr::global_epoch_addr(&self.collector);
+        m.global_epoch = Some(e0);
+    }
+}
+
+pub struct EG {
+    pub g: Guard,
+}
+
+pub struct ECtx {
+    pub t: usize,
+}
+
+fn ran(id: usize) {
+    if let Some(m) = try_mon() {
+        m.closure_ran(id);
+    }
+}
+
+impl ECtx {
+    pub fn new() -> ECtx {
+        ECtx { t: sched::tid() }
+    }
+    pub fn pin(&self, h: &LocalHandle) -> EG {
+        let i = mon().op_begin(self.t, "epin", [0; 4]);
+        let g = h.pin();
+        let m = mon();
+        m.cs_enter(self.t);
+        m.op_end(i, [0; 4]);
+        EG { g }
+    }
+    pub fn unpin(&self, g: EG) {
+        let m = mon();
+        let i = m.op_begin(self.t, "eunpin", [0; 4]);
+        m.cs_leave(self.t);
+        drop(g.g);
+        mon().op_end(i, [0; 4]);
+    }
+    pub fn defer(&self, g: &EG) -> usize {
+        let m = mon();
+        let i = m.op_begin(self.t, "defer", [0; 4]);
+        let id = m.closure_deferred(self.t);
+        unsafe { cv::ebr::defer(&g.g, move || ran(id)) };
+        mon().op_end(i, [id as i64, 0, 0, 0]);
+        id
+    }
+    /// Defers a closure that itself defers `inner` further closures when it runs.
+    pub fn defer_nesting(&self, g: &EG, h: *const LocalHandle, inner: usize) -> usize {
+        let m = mon();
+        let i = m.op_begin(self.t, "defer-nesting", [inner as i64, 0, 0, 0]);
+        let id = m.closure_deferred(self.t);
+        let hp = h as usize;
+        unsafe {
+            cv::ebr::defer(&g.g, move || {
+                ran(id);
+                if try_mon().is_none() {
+                    return;
+                }
+                // runs during a collection of whichever thread popped the bag: pin that thread's
+                // own participant is not available here, so use the deferring thread's handle only
+                // if this is the same thread; otherwise register a temporary participant
+                let _ = hp;
+                let t = sched::tid();
+                if t == sched::NONE {
+                    return;
+                }
+                let c = NESTING_COLLECTOR.with(|c| c.borrow().clone());
+                if let Some(c) = c {
+                    let h2 = c.register();
+                    let g2 = h2.pin();
+                    for _ in 0..inner {
+                        let id2 = mon().closure_deferred(t);
+                        cv::ebr::defer(&g2, move || ran(id2));
+                    }
+                    drop(g2);
+                    drop(h2);
+                }
+            })
+        };
+        mon().op_end(i, [id as i64, 0, 0, 0]);
+        id
+    }
+    pub fn flush(&self, g: &EG) {
+        let i = mon().op_begin(self.t, "eflush", [0; 4]);
+        g.g.flush();
+        mon().op_end(i, [0; 4]);
+    }
+    pub fn round(&self, h: &LocalHandle) {
+        let g = self.pin(h);
+        self.flush(&g);
+        self.unpin(g);
+    }
+    pub fn rounds(&self, h: &LocalHandle, k: usize) {
+        for _ in 0..k {
+            self.round(h);
+        }
+    }
+    /// A step of the program inside its critical section (a scheduling point).
+    pub fn mark(&self) {
+        let i = mon().op_begin(self.t, "mark", [0; 4]);
+        sched::point(sched::CLASS_DEREF, 0);
+        mon().op_end(i, [0; 4]);
+    }
+    pub fn reactivate(&self, g: &mut EG) {
+        let m = mon();
+        let i = m.op_begin(self.t, "ereactivate", [0; 4]);
+        m.cs_restart_begin(self.t);
+        g.g.reactivate();
+        let m = mon();
+        m.cs_restart_end(self.t);
+        m.op_end(i, [0; 4]);
+    }
+    pub fn reactivate_after(&self, g: &mut EG, f: impl FnOnce()) {
+        let m = mon();
+        let i = m.op_begin(self.t, "ereactivate_after", [0; 4]);
+        m.cs_restart_begin(self.t);
+        g.g.reactivate_after(f);
+        let m = mon();
+        m.cs_restart_end(self.t);
+        m.op_end(i, [0; 4]);
+    }
+}
+
+thread_local! {
+    /// the private collector, for closures that need to pin from inside a collection
+    static NESTING_COLLECTOR: std::cell::RefCell<Option<Collector>> = const { std::cell::RefCell::new(None) };
+}
+
+fn ebody(ew: &Arc<EWorld>, f: impl FnOnce(&ECtx, &EWorld) + Send + 'static) -> Body {
+    let ew = ew.clone();
+    Box::new(move |_| {
+        let c = ECtx::new();
+        NESTING_COLLECTOR.with(|x| *x.borrow_mut() = Some(ew.collector.clone()));
+        f(&c, &ew);
+        NESTING_COLLECTOR.with(|x| *x.borrow_mut() = None);
+        drop(ew);
+    })
+}
+
+fn ebase(p: &Params, classes: u8) -> Program {
+    Program {
+        e0: 0,
+        classes: p.get("classes", classes as i64) as u8,
+        bag_cap: p.get("bag", 64) as usize,
+        quarantine: false,
+        check_quiescent: false,
+        state_points: false,
+        rc_world: false,
+        claim: crate::exec::claim_of(p),
+        ..Default::default()
+    }
+}
+
+/// Survivor: rounds until every deferred function has run (at most `max`), then the last
+/// references to the collector go away.
+fn survivor(ew: &Arc<EWorld>, max: usize, rounds_before_check: bool) -> Body {
+    ebody(ew, move |c, ew| {
+        if rounds_before_check {
+            let h = ew.collector.register();
+            let mut k = 0;
+            while k < max && mon().ebr.deferred.iter().any(|d| d.runs == 0) {
+                c.round(&h);
+                k += 1;
+            }
+            let m = mon();
+            m.mix_outcome(0x700 ^ k as u64);
+            if let Some((id, _)) = m.ebr.deferred.iter().enumerate().find(|(_, d)| d.runs == 0) {
+                m.violate(
+                    "C15",
+                    "not-run-by-survivor",
+                    format!("deferred function {} has not run after {} rounds of a surviving thread with nobody else pinned", id, k),
+                );
+            }
+            drop(h);
+        }
+        for s in ew.handles.iter() {
+            drop(s.try_take());
+        }
+    })
+}
+
+fn finish_all_ran_once() -> Box<dyn FnOnce(&mut Monitor)> {
+    Box::new(|m: &mut Monitor| {
+        // by now the collector itself has been dropped, which runs whatever was left
+        let bad: Vec<(usize, u32)> = m
+            .ebr
+            .deferred
+            .iter()
+            .enumerate()
+            .filter(|(_, d)| d.runs != 1)
+            .map(|(i, d)| (i, d.runs))
+            .collect();
+        if let Some((id, runs)) = bad.first() {
+            m.violate(
+                "C15",
+                if *runs == 0 { "lost" } else { "ran-twice" },
+                format!("deferred function {} ran {} time(s) by the time the collector was gone", id, runs),
+            );
+        }
+        if !m.ebr.deferred.is_empty() {
+            m.cover("all-closures-accounted");
+        }
+    })
+}
+
+// ------------------------------------------------------------------------------------ C13 / C14
+
+fn sections(p: &Params) -> Program {
+    let e0 = p.get("e0", 0) as usize;
+    let prog = p.get("prog", 0);
+    let ew = EWorld::new(e0);
+    let take = |i: usize| move |ew: &EWorld| ew.handles[i].take().0;
+    let reader = |i: usize, marks: usize| {
+        ebody(&ew, move |c, ew| {
+            let h = take(i)(ew);
+            let g = c.pin(&h);
+            for _ in 0..marks {
+                c.mark();
+            }
+            c.unpin(g);
+            drop(h);
+        })
+    };
+    let deferrer = |i: usize, rounds: usize| {
+        ebody(&ew, move |c, ew| {
+            let h = take(i)(ew);
+            let g = c.pin(&h);
+            c.defer(&g);
+            c.flush(&g);
+            c.unpin(g);
+            c.rounds(&h, rounds);
+            drop(h);
+        })
+    };
+    let advancer = |i: usize, rounds: usize| {
+        ebody(&ew, move |c, ew| {
+            let h = take(i)(ew);
+            c.rounds(&h, rounds);
+            drop(h);
+        })
+    };
+    let mut nhandles = 3;
+    let threads: Vec<Body> = match prog {
+        // 1. reader vs deferrer
+        0 => vec![reader(0, 1), deferrer(1, 4)],
+        // 2. two deferrers and a long reader
+        1 => vec![reader(0, 2), deferrer(1, 3), deferrer(2, 3)],
+        // 3. nested guards
+        2 => vec![
+            ebody(&ew, move |c, ew| {
+                let h = take(0)(ew);
+                let g1 = c.pin(&h);
+                let g2 = c.pin(&h);
+                c.unpin(g1);
+                c.mark();
+                c.unpin(g2);
+                drop(h);
+            }),
+            deferrer(1, 4),
+        ],
+        // 4. two advancers racing inside try_advance, a third pins in between
+        3 => vec![reader(0, 1), deferrer(1, 3), advancer(2, 3)],
+        // 5. registration / unregistration while another thread traverses the registry
+        4 => {
+            nhandles = 2;
+            vec![
+                ebody(&ew, move |c, ew| {
+                    let h = ew.collector.register();
+                    let g = c.pin(&h);
+                    c.mark();
+                    c.unpin(g);
+                    drop(h);
+                }),
+                deferrer(1, 4),
+                advancer(0, 2),
+            ]
+        }
+        // 6. reactivation ends and restarts the reader's critical section
+        5 => vec![
+            ebody(&ew, move |c, ew| {
+                let h = take(0)(ew);
+                let mut g = c.pin(&h);
+                c.mark();
+                c.reactivate(&mut g);
+                c.mark();
+                c.reactivate_after(&mut g, || {});
+                c.mark();
+                c.unpin(g);
+                drop(h);
+            }),
+            deferrer(1, 5),
+        ],
+        // 7. (C14) a deferred function that overflows the bag while it runs: the collecting
+        //    thread re-pins in the middle of its collection
+        6 => vec![
+            reader(0, 2),
+            ebody(&ew, move |c, ew| {
+                let h = take(1)(ew);
+                let g = c.pin(&h);
+                c.defer_nesting(&g, &h, 3);
+                c.flush(&g);
+                c.unpin(g);
+                c.rounds(&h, 5);
+                drop(h);
+            }),
+        ],
+        // 8. the handle is dropped while a guard is alive: unregistration happens at unpin
+        _ => vec![
+            ebody(&ew, move |c, ew| {
+                let h = take(0)(ew);
+                let g = c.pin(&h);
+                c.defer(&g);
+                drop(h);
+                c.mark();
+                c.unpin(g);
+            }),
+            deferrer(1, 4),
+        ],
+    };
+    let ew2 = ew.clone();
+    Program {
+        e0,
+        setup: Some(ebody(&ew, move |_, ew| {
+            ew.attach(e0);
+            for i in 0..nhandles {
+                ew.handles[i].put(SendHandle(ew.collector.register()));
+            }
+        })),
+        threads,
+        post: Some(survivor(&ew2, 40, true)),
+        finish: Some(finish_all_ran_once()),
+        ..ebase(p, sched::EBR)
+    }
+}
+
+// ------------------------------------------------------------------------------------ C15 (S)
+
+fn exit_with_garbage(p: &Params) -> Program {
+    let e0 = p.get("e0", 0) as usize;
+    let k = p.get("k", 3) as usize;
+    let j = p.get("j", 1) as usize;
+    // 0 flush then exit; 1 exit with the bag unflushed; 2 handle dropped while a guard is alive;
+    // 3 as 1, and nobody runs rounds afterwards: the collector is dropped with work pending
+    let mode = p.get("mode", 1);
+    let ew = EWorld::new(e0);
+    let ew2 = ew.clone();
+    Program {
+        e0,
+        setup: Some(ebody(&ew, move |_, ew| {
+            ew.attach(e0);
+            for i in 0..2 {
+                ew.handles[i].put(SendHandle(ew.collector.register()));
+            }
+        })),
+        threads: vec![
+            ebody(&ew, move |c, ew| {
+                let mut h = Some(ew.handles[0].take().0);
+                let g = c.pin(h.as_ref().unwrap());
+                let mut g = Some(g);
+                for i in 0..=k {
+                    if i == j {
+                        match mode {
+                            0 => {
+                                c.flush(g.as_ref().unwrap());
+                                c.unpin(g.take().unwrap());
+                                drop(h.take());
+                            }
+                            2 => {
+                                drop(h.take());
+                                c.mark();
+                                c.unpin(g.take().unwrap());
+                            }
+                            _ => {
+                                c.unpin(g.take().unwrap());
+                                drop(h.take());
+                            }
+                        }
+                        return;
+                    }
+                    if i < k {
+                        c.defer(g.as_ref().unwrap());
+                    }
+                }
+                c.unpin(g.take().unwrap());
+                drop(h.take());
+            }),
+            ebody(&ew, move |c, ew| {
+                let h = ew.handles[1].take().0;
+                let g = c.pin(&h);
+                c.defer(&g);
+                c.unpin(g);
+                c.rounds(&h, 3);
+                drop(h);
+            }),
+        ],
+        post: Some(survivor(&ew2, 40, mode != 3)),
+        finish: Some(finish_all_ran_once()),
+        ..ebase(p, sched::EBR)
+    }
+}
+
+// ------------------------------------------------------------------------------------ C15 (E)
+
+#[derive(Clone, Copy)]
+#[repr(align(16))]
+#[allow(dead_code)]
+struct Al16(u8);
+#[derive(Clone, Copy)]
+#[repr(align(32))]
+#[allow(dead_code)]
+struct Al32(u8);
+#[derive(Clone, Copy)]
+#[repr(align(64))]
+#[allow(dead_code)]
+struct Al64(u8);
+
+#[repr(C)]
+#[derive(Clone, Copy)]
+struct Pay<A: Copy, const N: usize> {
+    a: [A; 0],
+    b: [u8; N],
+}
+
+fn pattern(id: usize, i: usize) -> u8 {
+    (id.wrapping_mul(31).wrapping_add(i.wrapping_mul(7)) & 0xff) as u8 ^ 0x5a
+}
+
+fn defer_pay<A: Copy + Send + 'static, const N: usize>(g: &Guard, id: usize) {
+    let mut p = Pay::<A, N> { a: [], b: [0; N] };
+    for i in 0..N {
+        p.b[i] = pattern(id, i);
+    }
+    unsafe {
+        cv::ebr::defer(g, move || {
+            let addr = &p as *const Pay<A, N> as usize;
+            let mut ok = addr % std::mem::align_of::<Pay<A, N>>() == 0;
+            for i in 0..N {
+                ok &= std::hint::black_box(&p).b[i] == pattern(id, i);
+            }
+            if !ok {
+                if let Some(m) = try_mon() {
+                    m.violate("C15", "payload-corrupted", format!("captured data of deferred function {} arrived damaged or misaligned (size {}, align {})", id, std::mem::size_of::<Pay<A, N>>(), std::mem::align_of::<Pay<A, N>>()));
+                }
+            }
+            ran(id);
+        })
+    };
+}
+
+pub const PAY_SIZES: [usize; 10] = [0, 1, 8, 16, 23, 24, 25, 32, 64, 256];
+pub const PAY_ALIGNS: [usize; 7] = [1, 2, 4, 8, 16, 32, 64];
+
+fn defer_payload(g: &Guard, id: usize, size_i: usize, align_i: usize) {
+    macro_rules! by_size {
+        ($a:ty) => {
+            match size_i {
+                0 => defer_pay::<$a, 0>(g, id),
+                1 => defer_pay::<$a, 1>(g, id),
+                2 => defer_pay::<$a, 8>(g, id),
+                3 => defer_pay::<$a, 16>(g, id),
+                4 => defer_pay::<$a, 23>(g, id),
+                5 => defer_pay::<$a, 24>(g, id),
+                6 => defer_pay::<$a, 25>(g, id),
+                7 => defer_pay::<$a, 32>(g, id),
+                8 => defer_pay::<$a, 64>(g, id),
+                _ => defer_pay::<$a, 256>(g, id),
+            }
+        };
+    }
+    match align_i {
+        0 => by_size!(u8),
+        1 => by_size!(u16),
+        2 => by_size!(u32),
+        3 => by_size!(u64),
+        4 => by_size!(Al16),
+        5 => by_size!(Al32),
+        _ => by_size!(Al64),
+    }
+}
+
+/// (capacity 1 is not a configuration the library can have and makes a single collection
+/// endless: every pop retires a queue node, which overflows a one-entry bag into the queue again)
+pub const PAY_CAPS: [usize; 4] = [2, 3, 4, 64];
+
+pub fn payload_cases() -> i64 {
+    (PAY_SIZES.len() * PAY_ALIGNS.len() * PAY_CAPS.len() * 7 * 4) as i64
+}
+
+fn payload(p: &Params) -> Program {
+    let e0 = p.get("e0", 0) as usize;
+    let mut k = p.get("case", 0) as usize;
+    let mode = k % 4;
+    k /= 4;
+    let fill_i = k % 7;
+    k /= 7;
+    let cap = PAY_CAPS[k % 4];
+    k /= 4;
+    let align_i = k % PAY_ALIGNS.len();
+    k /= PAY_ALIGNS.len();
+    let size_i = k % PAY_SIZES.len();
+    let fill = [0, 1, cap.saturating_sub(1), cap, cap + 1, 2 * cap, 2 * cap + 1][fill_i];
+    let ew = EWorld::new(e0);
+    let ew2 = ew.clone();
+    Program {
+        e0,
+        setup: Some(ebody(&ew, move |c, ew| {
+            ew.attach(e0);
+            let mut h = Some(ew.collector.register());
+            let mut g = Some(c.pin(h.as_ref().unwrap()));
+            for _ in 0..fill {
+                let id = mon().closure_deferred(c.t);
+                defer_payload(&g.as_ref().unwrap().g, id, size_i, align_i);
+            }
+            match mode {
+                0 => {
+                    c.flush(g.as_ref().unwrap());
+                    c.unpin(g.take().unwrap());
+                    drop(h.take());
+                }
+                2 => {
+                    drop(h.take());
+                    c.unpin(g.take().unwrap());
+                }
+                _ => {
+                    c.unpin(g.take().unwrap());
+                    drop(h.take());
+                }
+            }
+        })),
+        threads: vec![],
+        post: Some(survivor(&ew2, 40, mode != 3)),
+        finish: Some(finish_all_ran_once()),
+        bag_cap: cap,
+        ..ebase(p, 0)
+    }
+}
+
+// ------------------------------------------------------------------------------------ C16
+
+/// symbols: 0 pin; 1..=3 drop guard i; 4..=6 reactivate guard i; 7..=15 reactivate_after(guard i, f)
+/// with f = 0 nop, 1 pin and drop a nested guard, 2 panic
+pub fn guard_seqs(depth: usize) -> &'static Vec<Vec<u8>> {
+    static S: OnceLock<std::sync::Mutex<std::collections::HashMap<usize, &'static Vec<Vec<u8>>>>> = OnceLock::new();
+    let map = S.get_or_init(Default::default);
+    let mut map = map.lock().unwrap();
+    if let Some(v) = map.get(&depth) {
+        return v;
+    }
+    let mut out: Vec<Vec<u8>> = vec![];
+    fn rec(seq: &mut Vec<u8>, live: [bool; 3], depth: usize, out: &mut Vec<Vec<u8>>) {
+        out.push(seq.clone());
+        if seq.len() == depth {
+            return;
+        }
+        if let Some(i) = live.iter().position(|l| !l) {
+            let mut l2 = live;
+            l2[i] = true;
+            seq.push(0);
+            rec(seq, l2, depth, out);
+            seq.pop();
+        }
+        for i in 0..3 {
+            if live[i] {
+                let mut l2 = live;
+                l2[i] = false;
+                seq.push(1 + i as u8);
+                rec(seq, l2, depth, out);
+                seq.pop();
+                seq.push(4 + i as u8);
+                rec(seq, live, depth, out);
+                seq.pop();
+                for f in 0..3 {
+                    seq.push(7 + (i * 3 + f) as u8);
+                    rec(seq, live, depth, out);
+                    seq.pop();
+                }
+            }
+        }
+    }
+    rec(&mut vec![], [false; 3], depth, &mut out);
+    let leaked: &'static Vec<Vec<u8>> = Box::leak(Box::new(out));
+    map.insert(depth, leaked);
+    leaked
+}
+
+fn run_guard_seq(seq: &[u8], h: &LocalHandle, peer: &LocalHandle, collector: &Collector, base: usize) {
+    let bad = |what: String| mon().violate("C16", "guard-model", what);
+    let peer0 = cv::ebr::local_state(peer);
+    let mut guards: [Option<Guard>; 3] = [None, None, None];
+    let mut live = 0usize;
+    let handle0 = cv::ebr::local_state(h).handle_count;
+    for (step, &s) in seq.iter().enumerate() {
+        mon().mix(0x1600 ^ ((s as u64) << 8) ^ ((step as u64) << 16));
+        let before = cv::ebr::local_state(h);
+        let ctx = |what: &str| format!("step {} of {:?} ({}): {}", step, seq, if base == 0 { "top level" } else { "inside a deferred function" }, what);
+        match s {
+            0 => {
+                let i = guards.iter().position(|g| g.is_none()).unwrap();
+                guards[i] = Some(h.pin());
+                live += 1;
+            }
+            1..=3 => {
+                guards[(s - 1) as usize] = None;
+                live -= 1;
+            }
+            4..=6 => {
+                let sole = live + base == 1;
+                guards[(s - 4) as usize].as_mut().unwrap().reactivate();
+                let after = cv::ebr::local_state(h);
+                if sole {
+                    let g = cv::ebr::global_epoch(collector);
+                    if !after.pinned || after.epoch != g {
+                        bad(ctx(&format!("after reactivate on the sole guard the thread is pinned={} at epoch {}, global epoch {}", after.pinned, after.epoch, g)));
+                    }
+                    mon().cover("reactivate-sole");
+                } else if after.epoch != before.epoch || !after.pinned {
+                    bad(ctx("reactivate on one of several guards changed the pinned epoch"));
+                }
+            }
+            _ => {
+                let i = ((s - 7) / 3) as usize;
+                let f = (s - 7) % 3;
+                let sole = live + base == 1;
+                let hp = h as *const LocalHandle as usize;
+                let mut inside = (false, 0usize);
+                let g = guards[i].as_mut().unwrap();
+                let r = std::panic::catch_unwind(std::panic::AssertUnwindSafe(|| {
+                    g.reactivate_after(|| {
+                        let h = unsafe { &*(hp as *const LocalHandle) };
+                        let st = cv::ebr::local_state(h);
+                        inside = (st.pinned, st.guard_count);
+                        match f {
+                            0 => {}
+                            1 => {
+                                let g2 = h.pin();
+                                let st2 = cv::ebr::local_state(h);
+                                if !st2.pinned {
+                                    mon().violate("C16", "guard-model", "a guard created inside reactivate_after does not pin the thread".into());
+                                }
+                                drop(g2);
+                            }
+                            _ => panic!("closure panics"),
+                        }
+                    })
+                }));
+                if (f == 2) != r.is_err() {
+                    bad(ctx("panic of the closure was not propagated exactly"));
+                }
+                if inside.0 == sole {
+                    bad(ctx(&format!("inside the closure the thread was pinned={} with {} live guard(s) besides", inside.0, live + base - 1)));
+                }
+                if inside.1 != live + base - 1 {
+                    bad(ctx(&format!("inside the closure guard_count was {}, expected {}", inside.1, live + base - 1)));
+                }
+                if sole {
+                    mon().cover("reactivate-after-sole");
+                }
+                if f == 2 {
+                    mon().cover("reactivate-after-panic");
+                }
+            }
+        }
+        let st = cv::ebr::local_state(h);
+        if st.guard_count != live + base {
+            bad(ctx(&format!("guard_count is {}, model says {}", st.guard_count, live + base)));
+        }
+        if st.pinned != (live + base > 0) {
+            bad(ctx(&format!("thread pinned={}, with {} live guard(s)", st.pinned, live + base)));
+        }
+        if st.handle_count != handle0 {
+            bad(ctx(&format!("handle_count drifted from {} to {}", handle0, st.handle_count)));
+        }
+        if cv::ebr::local_state(peer) != peer0 {
+            bad(ctx("the other participant's state changed"));
+        }
+        let m = mon();
+        m.mix_outcome(0x1600 ^ ((st.guard_count as u64) << 8) ^ ((st.pinned as u64) << 20) ^ ((step as u64) << 24));
+    }
+    drop(guards);
+    let st = cv::ebr::local_state(h);
+    if st.guard_count != base || st.pinned != (base > 0) {
+        bad(format!("after dropping all guards of {:?}: guard_count {}, pinned {}", seq, st.guard_count, st.pinned));
+    }
+}
+
+fn guards(p: &Params) -> Program {
+    let e0 = p.get("e0", 0) as usize;
+    let depth = p.get("depth", 4) as usize;
+    let seq = guard_seqs(depth)[p.get("case", 0) as usize].clone();
+    // 0: top level; 1: inside a deferred function that runs during the thread's own collection
+    let inside = p.get("inside", 0) != 0;
+    let peer_pinned = p.get("peer", 0) != 0;
+    let ew = EWorld::new(e0);
+    let ew2 = ew.clone();
+    Program {
+        e0,
+        setup: Some(ebody(&ew, move |c, ew| {
+            ew.attach(e0);
+            std::panic::set_hook(Box::new(|_| {}));
+            let h = ew.collector.register();
+            let peer = ew.collector.register();
+            let pg = if peer_pinned { Some(peer.pin()) } else { None };
+            if !inside {
+                run_guard_seq(&seq, &h, &peer, &ew.collector, 0);
+            } else {
+                let hp = &h as *const LocalHandle as usize;
+                let pp = &peer as *const LocalHandle as usize;
+                let cp = &ew.collector as *const Collector as usize;
+                let seq2 = seq.clone();
+                let g = c.pin(&h);
+                let id = mon().closure_deferred(c.t);
+                unsafe {
+                    cv::ebr::defer(&g.g, move || {
+                        ran(id);
+                        if sched::tid() == sched::NONE || try_mon().is_none() {
+                            return;
+                        }
+                        let (h, peer, col) = (&*(hp as *const LocalHandle), &*(pp as *const LocalHandle), &*(cp as *const Collector));
+                        run_guard_seq(&seq2, h, peer, col, 1);
+                        mon().cover("sequence-ran-inside-closure");
+                    })
+                };
+                c.flush(&g);
+                c.unpin(g);
+                // the peer, if pinned, must let go for the epoch to move three times
+                drop(pg);
+                let mut k = 0;
+                while mon().ebr.deferred[id].runs == 0 && k < 12 {
+                    c.round(&h);
+                    k += 1;
+                }
+                if mon().ebr.deferred[id].runs == 0 {
+                    mon().violate("C16", "harness", "the closure carrying the sequence never ran".into());
+                }
+                drop(peer);
+                drop(h);
+                let _ = std::panic::take_hook();
+                return;
+            }
+            drop(pg);
+            drop(peer);
+            drop(h);
+            let _ = std::panic::take_hook();
+        })),
+        threads: vec![],
+        post: Some(survivor(&ew2, 40, true)),
+        finish: Some(finish_all_ran_once()),
+        ..ebase(p, 0)
+    }
+}
+
+// ------------------------------------------------------------------------------------ C17
+
+fn q_step(state: &VecDeque<i64>, op: &OpRec) -> Option<VecDeque<i64>> {
+    let pred = |which: i64, v: i64| match which {
+        1 => v % 2 == 0,
+        2 => v < 2,
+        _ => true,
+    };
+    match op.kind {
+        "qpush" => {
+            let mut s = state.clone();
+            s.push_back(op.args[1]);
+            Some(s)
+        }
+        "qpop" => {
+            let which = op.args[1];
+            if op.res[0] == 1 {
+                let v = op.res[1];
+                if state.front() == Some(&v) && pred(which, v) {
+                    let mut s = state.clone();
+                    s.pop_front();
+                    Some(s)
+                } else {
+                    None
+                }
+            } else {
+                match state.front() {
+                    None => Some(state.clone()),
+                    Some(&v) if !pred(which, v) => Some(state.clone()),
+                    _ => None,
+                }
+            }
+        }
+        _ => Some(state.clone()),
+    }
+}
+
+#[derive(Clone, Copy)]
+enum QOp {
+    Push(u64),
+    Pop,
+    PopEven,
+    PopSmall,
+}
+
+fn queue(p: &Params) -> Program {
+    use QOp::*;
+    let e0 = p.get("e0", 0) as usize;
+    let (init, progs): (Vec<u64>, Vec<Vec<QOp>>) = match p.get("prog", 0) {
+        0 => (vec![], vec![vec![Push(1), Push(2)], vec![Pop, PopEven], vec![Push(3)]]),
+        1 => (vec![], vec![vec![Push(1)], vec![Push(2)], vec![Pop, Pop]]),
+        2 => (vec![10], vec![vec![Pop], vec![Pop], vec![Push(4)]]),
+        3 => (vec![1, 2], vec![vec![PopEven], vec![Pop], vec![PopSmall]]),
+        4 => (vec![2], vec![vec![PopEven, PopEven], vec![Push(4), Push(5)]]),
+        5 => (vec![], vec![vec![Push(1), Pop], vec![Push(2), Pop]]),
+        _ => (vec![3], vec![vec![PopEven, Pop], vec![Pop, Push(6)], vec![PopSmall]]),
+    };
+    let ew = EWorld::new(e0);
+    let run_op = |c: &ECtx, ew: &EWorld, h: &LocalHandle, op: QOp| {
+        let g = h.pin();
+        match op {
+            Push(v) => {
+                let i = mon().op_begin(c.t, "qpush", [0, v as i64, 0, 0]);
+                ew.queue.push(v, &g);
+                mon().op_end(i, [0; 4]);
+            }
+            Pop | PopEven | PopSmall => {
+                let which = match op {
+                    Pop => 0,
+                    PopEven => 1,
+                    _ => 2,
+                };
+                let i = mon().op_begin(c.t, "qpop", [0, which, 0, 0]);
+                let r = match op {
+                    Pop => ew.queue.try_pop(&g),
+                    PopEven => ew.queue.try_pop_if(|v| v % 2 == 0, &g),
+                    _ => ew.queue.try_pop_if(|v| *v < 2, &g),
+                };
+                mon().op_end(i, [r.is_some() as i64, r.unwrap_or(0) as i64, 0, 0]);
+            }
+        }
+        drop(g);
+    };
+    let n = progs.len();
+    let threads: Vec<Body> = progs
+        .into_iter()
+        .enumerate()
+        .map(|(ti, ops)| {
+            ebody(&ew, move |c, ew| {
+                let h = ew.handles[ti].take().0;
+                for op in ops {
+                    run_op(c, ew, &h, op);
+                }
+                drop(h);
+            })
+        })
+        .collect();
+    let ew2 = ew.clone();
+    Program {
+        e0,
+        setup: Some(ebody(&ew, move |c, ew| {
+            ew.attach(e0);
+            let h = ew.collector.register();
+            for v in init {
+                run_op(c, ew, &h, Push(v));
+            }
+            drop(h);
+            for i in 0..n {
+                ew.handles[i].put(SendHandle(ew.collector.register()));
+            }
+        })),
+        threads,
+        post: Some(ebody(&ew2, move |c, ew| {
+            // whatever is left comes out in order
+            let h = ew.collector.register();
+            for _ in 0..8 {
+                run_op(c, ew, &h, Pop);
+            }
+            c.rounds(&h, 6);
+            drop(h);
+        })),
+        finish: Some(Box::new(|m: &mut Monitor| {
+            let ops: Vec<OpRec> = m.hist.iter().filter(|o| (o.kind == "qpush" || o.kind == "qpop") && o.resp != 0).cloned().collect();
+            m.cover("history-checked");
+            if ops.iter().any(|o| o.kind == "qpop" && o.res[0] == 0 && o.tid < 3) {
+                m.cover("empty-pop");
+            }
+            if lin::linearizable(&ops, VecDeque::new(), &q_step).is_none() {
+                m.violate("C17", "not-linearizable", format!("no linearization of the history is a legal FIFO run: {}", lin::describe(&ops)));
+            }
+        })),
+        ..ebase(p, 1 << sched::CLASS_RAW)
+    }
+}
+
+// ------------------------------------------------------------------------------------ C18
+
+#[derive(Clone, Copy)]
+enum LOp {
+    Insert(usize),
+    Delete(usize),
+    Traverse,
+}
+
+pub fn on_list_finalize(m: &mut Monitor, id: usize) {
+    let n = {
+        let e = m.ebr.list_finalized.entry(id).or_insert(0);
+        *e += 1;
+        *e
+    };
+    m.cover("list-finalize");
+    if n > 1 {
+        m.violate("C18", "finalized-twice", format!("registry element {} was unlinked and handed to reclamation twice", id));
+    }
+    if !m.ebr.list_deleted.contains_key(&id) {
+        m.violate("C18", "finalized-live", format!("registry element {} was unlinked although it was never deleted", id));
+    }
+}
+
+fn list(p: &Params) -> Program {
+    use LOp::*;
+    let e0 = p.get("e0", 0) as usize;
+    let (init, progs): (Vec<usize>, Vec<Vec<LOp>>) = match p.get("prog", 0) {
+        0 => (vec![1, 2, 3], vec![vec![Traverse], vec![Delete(2), Delete(1)], vec![Insert(4)]]),
+        1 => (vec![1, 2], vec![vec![Traverse, Traverse], vec![Delete(1)], vec![Delete(2)]]),
+        2 => (vec![1], vec![vec![Traverse], vec![Insert(2), Delete(2)], vec![Traverse]]),
+        3 => (vec![1, 2, 3], vec![vec![Delete(2), Traverse], vec![Delete(3), Traverse]]),
+        4 => (vec![1, 2, 3], vec![vec![Traverse], vec![Delete(3), Traverse], vec![Delete(2)]]),
+        _ => (vec![], vec![vec![Insert(1), Traverse], vec![Insert(2), Traverse], vec![Traverse]]),
+    };
+    let ew = EWorld::new(e0);
+    let run_op = |c: &ECtx, ew: &EWorld, h: &LocalHandle, op: LOp| {
+        let g = h.pin();
+        match op {
+            Insert(id) => {
+                let i = mon().op_begin(c.t, "linsert", [0, id as i64, 0, 0]);
+                let e = ew.list.insert(id, &g);
+                ew.elems[id].put(e);
+                let m = mon();
+                m.op_end(i, [0; 4]);
+                let (inv, resp) = (m.hist[i].inv, m.hist[i].resp);
+                m.ebr.list_inserted.insert(id, (inv, resp));
+            }
+            Delete(id) => {
+                let i = mon().op_begin(c.t, "ldelete", [0, id as i64, 0, 0]);
+                let inv = mon().hist[i].inv;
+                mon().ebr.list_deleted.insert(id, inv);
+                let e = ew.elems[id].take();
+                unsafe { ew.list.delete(e, &g) };
+                mon().op_end(i, [0; 4]);
+            }
+            Traverse => {
+                let i = mon().op_begin(c.t, "ltraverse", [0; 4]);
+                let (seen, stalled) = ew.list.traverse(&g);
+                let m = mon();
+                let mut code = 0i64;
+                for id in seen.iter() {
+                    code |= 1 << id;
+                }
+                m.op_end(i, [stalled as i64, code, 0, 0]);
+                let (inv, resp) = (m.hist[i].inv, m.hist[i].resp);
+                if stalled {
+                    m.cover("traverse-stalled");
+                } else {
+                    m.cover("traverse-complete");
+                    // every element inserted before the traversal began and not deleted before it
+                    // ended must have been visited
+                    let must: Vec<usize> = m
+                        .ebr
+                        .list_inserted
+                        .iter()
+                        .filter(|(id, (_, r))| *r < inv && m.ebr.list_deleted.get(id).map(|&d| d > resp).unwrap_or(true))
+                        .map(|(id, _)| *id)
+                        .collect();
+                    for id in must {
+                        if !seen.contains(&id) {
+                            m.violate("C18", "stable-member-overlooked", format!("a traversal that did not stall visited {:?} but not element {}, which was in the list throughout", seen, id));
+                        }
+                    }
+                    // nothing that was never inserted, nothing twice
+                    let mut s = seen.clone();
+                    s.sort();
+                    s.dedup();
+                    if s.len() != seen.len() || seen.iter().any(|id| !m.ebr.list_inserted.contains_key(id)) {
+                        m.violate("C18", "traversal-garbage", format!("a traversal returned {:?}", seen));
+                    }
+                }
+            }
+        }
+        drop(g);
+    };
+    let n = progs.len();
+    let threads: Vec<Body> = progs
+        .into_iter()
+        .enumerate()
+        .map(|(ti, ops)| {
+            ebody(&ew, move |c, ew| {
+                let h = ew.handles[ti].take().0;
+                for op in ops {
+                    run_op(c, ew, &h, op);
+                }
+                drop(h);
+            })
+        })
+        .collect();
+    let ew2 = ew.clone();
+    Program {
+        e0,
+        setup: Some(ebody(&ew, move |c, ew| {
+            ew.attach(e0);
+            let h = ew.collector.register();
+            for id in init {
+                run_op(c, ew, &h, Insert(id));
+            }
+            drop(h);
+            for i in 0..n {
+                ew.handles[i].put(SendHandle(ew.collector.register()));
+            }
+        })),
+        threads,
+        post: Some(ebody(&ew2, move |c, ew| {
+            let h = ew.collector.register();
+            for id in 0..8 {
+                if ew.elems[id].is_some() {
+                    run_op(c, ew, &h, Delete(id));
+                }
+            }
+            run_op(c, ew, &h, Traverse);
+            run_op(c, ew, &h, Traverse);
+            c.rounds(&h, 6);
+            drop(h);
+        })),
+        finish: Some(Box::new(|m: &mut Monitor| {
+            // every deleted element has been unlinked exactly once by now (two quiet traversals)
+            let missing: Vec<usize> = m.ebr.list_deleted.keys().filter(|id| m.ebr.list_finalized.get(id).copied().unwrap_or(0) != 1).copied().collect();
+            if let Some(id) = missing.first() {
+                m.violate("C18", "not-unlinked", format!("deleted element {} was unlinked {} time(s) after two quiet traversals", id, m.ebr.list_finalized.get(id).copied().unwrap_or(0)));
+            }
+        })),
+        ..ebase(p, 1 << sched::CLASS_RAW)
+    }
+}
